@@ -211,6 +211,17 @@ CLAIMED = {
         "technique": "Lean 4 proof over abstract typed cells (partial) + generated-workbook correspondence",
         "design_ref": "DESIGN.md §6 C16",
     },
+    "C17": {
+        "text": "Lean 4 theorems (Props/C17.lean): the interface definition is a function of the CID's rows only (C17_cid_storage, with C12/C15/C16 for the containers), "
+                "and a field declaration is literally the same under the delimited, Excel and ODS formats for every type but DateTime (C17_field_format_independent, "
+                "C17_decimal_format_independent), DateTime differing only by the documented Excel ' 00:00:00' normalisation (C17_datetime_value). Correspondence: "
+                "generated CIDs stored as CSV, ODS and XLSX and loaded through Cid(path); generated tables of accepted and rejected text cells stored as delimited "
+                "text, ODS and XLSX and read under CIDs differing only in Format: identical verdicts and values required.",
+        "note": "Trusted: Lean kernel; model faithfulness (C02/C09 correspondence); container decoding for text cells is taken from C12/C15/C16; the check "
+                "itself compares the implementation with itself across formats (no model needed for the alarm).",
+        "technique": "Lean 4 proof (format independence of field declarations) + cross-format differential execution",
+        "design_ref": "DESIGN.md §6 C17",
+    },
 }
 
 NOT_YET = {
